@@ -526,7 +526,7 @@ class ExprMixin:
                 r = self.class_attr(ci, attr, obj)
                 if r is not None:
                     return r
-            if obj.ty.as_dict and attr in ("get", "items", "keys", "values", "setdefault", "update", "pop"):
+            if obj.ty.as_dict and attr in ("get", "items", "keys", "values", "setdefault", "update", "pop", "copy"):
                 return VMethod(obj, attr, e.value if e is not None else None)
             from .ex_call import EXTERNALS
             if f"{obj.ty.name}.{attr}" in EXTERNALS:
